@@ -58,6 +58,26 @@ type verifMNat struct {
 	v   uint64
 	ann int
 	red *verifMMod // saferith's `reduced`: set by Mod/ModMul, copied by SetNat, kept by Resize
+	// lb <= v <= ub: bounds the model derives from CONCRETE data only (moduli, capacities, constants;
+	// a value that enters through SetUint64 is unbounded: [0, 2^64-1]). They never change a value; they
+	// let the model leave out an operation that cannot change it (a reduction of a value already
+	// below the modulus, a mask above the value's bound) and decide a comparison whose outcome the
+	// bounds fix, which keeps the terms small and removes forks. The zero record is [0,0]. Checked
+	// natively (TestVerifSaferithModel compares lb <= real value <= ub after every step).
+	lb, ub uint64
+}
+
+const verifMaxU = ^uint64(0)
+
+// verifMCapMask: 2^c - 1, the largest value of c bits (c <= 0: 0, c >= 64: 2^64-1).
+func verifMCapMask(c int) uint64 {
+	if c <= 0 {
+		return 0
+	}
+	if c >= 64 {
+		return verifMaxU
+	}
+	return uint64(1)<<uint(c) - 1
 }
 
 type verifMInt struct {
@@ -113,9 +133,30 @@ func verifMResized(x *verifMNat, nbits int) uint64 {
 		return 0
 	}
 	if nbits <= 64 {
-		x.v = verifMTrunc(x.v, nbits)
+		if mk := verifMCapMask(nbits); x.ub > mk { // otherwise the mask cannot change the value
+			x.v, x.lb, x.ub = verifMTrunc(x.v, nbits), 0, mk
+		}
 	}
 	return x.v
+}
+
+// verifMView: value and bounds of x as seen through resizedLimbs(nbits) (in-place masking applied).
+func verifMView(x *verifMNat, nbits int) (v, lb, ub uint64) {
+	v = verifMResized(x, nbits)
+	if nbits <= 0 || x.ann <= 0 {
+		return 0, 0, 0
+	}
+	return v, x.lb, x.ub
+}
+
+// verifMSetTrunc: z = v truncated to c bits, v in [lb, ub].
+func verifMSetTrunc(z *verifMNat, v, lb, ub uint64, c int) {
+	verifMTrunc(0, c) // the panic for c <= -64
+	mk := verifMCapMask(c)
+	if ub > mk {
+		v, lb, ub = verifMTrunc(v, c), 0, mk
+	}
+	z.v, z.ann, z.red, z.lb, z.ub = v, c, nil, lb, ub
 }
 
 func verifMMaxAnn(x, y *verifMNat) int {
@@ -130,21 +171,23 @@ func verifMChoice(c bool) saferith.Choice { return saferith.Choice(verifB2U(c)) 
 // verifMEscapeIf records that the model left its domain (branch-free: cond may be symbolic).
 func verifMEscapeIf(cond bool) { verifEscaped |= verifB2U(cond) }
 
-func verifMNatSetUint64(z *verifMNat, x uint64) { z.v, z.ann, z.red = x, 64, nil }
+func verifMNatSetUint64(z *verifMNat, x uint64) {
+	z.v, z.ann, z.red, z.lb, z.ub = x, 64, nil, 0, verifMaxU
+}
 
 func verifMNatSetNat(z, x *verifMNat) {
 	if z == x { // z.resizedLimbs(z.announced) masks a value that Lsh left above its announced length
 		z.v = verifMResized(z, z.ann)
 		return
 	}
-	v, a, r := x.v, x.ann, x.red
+	v, a, r, lb, ub := x.v, x.ann, x.red, x.lb, x.ub
 	verifMTrunc(0, a) // z.resizedLimbs(x.announced): panics for a <= -64
-	z.v, z.ann, z.red = v, a, r
+	z.v, z.ann, z.red, z.lb, z.ub = v, a, r, lb, ub
 }
 
 func verifMNatResize(z *verifMNat, c int) {
-	z.v = verifMResized(z, c)
-	z.ann = c
+	v, lb, ub := verifMView(z, c)
+	z.v, z.ann, z.lb, z.ub = v, c, lb, ub
 }
 
 func verifMNatTrueLen(z *verifMNat) int { return bits.Len64(z.v) }
@@ -161,48 +204,74 @@ func verifMNatByte(z *verifMNat, i int) byte {
 
 func verifMNatCmp(z, x *verifMNat) (gt, eq, lt saferith.Choice) {
 	m := verifMMaxAnn(z, x)
-	zv := verifMResized(z, m)
-	xv := verifMResized(x, m)
+	zv, zl, zu := verifMView(z, m)
+	xv, xl, xu := verifMView(x, m)
+	switch { // decided by the bounds
+	case zu < xl:
+		return 0, 0, 1
+	case zl > xu:
+		return 1, 0, 0
+	case zl == zu && xl == xu && zl == xl:
+		return 0, 1, 0
+	}
 	return verifMChoice(zv > xv), verifMChoice(zv == xv), verifMChoice(zv < xv)
 }
 
 func verifMNatCondAssign(z *verifMNat, yes saferith.Choice, x *verifMNat) {
 	verifMEscapeIf(yes > 1)
 	m := verifMMaxAnn(z, x)
-	xv := verifMResized(x, m)
-	zv := verifMResized(z, m)
-	z.v, z.ann = verifIteU64(yes == 1, xv, zv), m
+	xv, xl, xu := verifMView(x, m)
+	zv, zl, zu := verifMView(z, m)
+	z.v, z.ann, z.lb, z.ub = verifMSelectBits(yes == 1, xv, zv), m, min(xl, zl), max(xu, zu)
 	if z.red != x.red {
 		z.red = nil
 	}
+}
+
+// verifMSelectBits: ite(c, a, b), built bit by bit so that a bit position which is syntactically zero
+// in both operands stays syntactically zero in the result (the exponentiation loop of
+// verifMNatExp folds over leading zero bits of the exponent; numct selects exponents with
+// Nat.Select, i.e. CondAssign). Same value as verifIteU64(c, a, b).
+func verifMSelectBits(c bool, a, b uint64) uint64 {
+	var r uint64
+	for i := uint(0); i < 64; i++ {
+		r |= verifIteU64(c, (a>>i)&1, (b>>i)&1) << i
+	}
+	return r
 }
 
 func verifMNatAdd(z, x, y *verifMNat, c int) {
 	if c < 0 {
 		c = verifMMaxAnn(x, y) + 1
 	}
-	xv := verifMResized(x, c)
-	yv := verifMResized(y, c)
+	xv, xl, xu := verifMView(x, c)
+	yv, yl, yu := verifMView(y, c)
 	verifMResized(z, c)
 	s, carry := bits.Add64(xv, yv, 0)
-	if c > 64 {
+	lb, ub := uint64(0), verifMaxU
+	if u, over := bits.Add64(xu, yu, 0); over == 0 { // the sum cannot wrap
+		lb, ub = xl+yl, u
+	} else if c > 64 {
 		verifMEscapeIf(carry != 0)
 	}
-	z.v, z.ann, z.red = verifMTrunc(s, c), c, nil
+	verifMSetTrunc(z, s, lb, ub, c)
 }
 
 func verifMNatSub(z, x, y *verifMNat, c int) {
 	if c < 0 {
 		c = verifMMaxAnn(x, y)
 	}
-	xv := verifMResized(x, c)
-	yv := verifMResized(y, c)
+	xv, xl, xu := verifMView(x, c)
+	yv, yl, yu := verifMView(y, c)
 	verifMResized(z, c)
 	d, borrow := bits.Sub64(xv, yv, 0)
-	if c > 64 {
+	lb, ub := uint64(0), verifMaxU
+	if xl >= yu { // the difference cannot wrap
+		lb, ub = xl-yu, xu-yl
+	} else if c > 64 {
 		verifMEscapeIf(borrow != 0)
 	}
-	z.v, z.ann, z.red = verifMTrunc(d, c), c, nil
+	verifMSetTrunc(z, d, lb, ub, c)
 }
 
 func verifMNatMul(z, x, y *verifMNat, c int) {
@@ -212,10 +281,14 @@ func verifMNatMul(z, x, y *verifMNat, c int) {
 	if c <= -64 {
 		panic("runtime error: makeslice: len out of range")
 	}
-	xv := verifMResized(x, c)
-	yv := verifMResized(y, c)
-	verifMEscapeIf((xv|yv)>>32 != 0) // the model multiplies 32-bit operands exactly
-	z.v, z.ann, z.red = verifMTrunc(uint64(uint32(xv))*uint64(uint32(yv)), c), c, nil
+	xv, xl, xu := verifMView(x, c)
+	yv, yl, yu := verifMView(y, c)
+	if (xu|yu)>>32 == 0 { // the model multiplies 32-bit operands exactly
+		verifMSetTrunc(z, xv*yv, xl*yl, xu*yu, c)
+		return
+	}
+	verifMEscapeIf((xv|yv)>>32 != 0)
+	verifMSetTrunc(z, uint64(uint32(xv))*uint64(uint32(yv)), 0, verifMaxU, c)
 }
 
 func verifMNatLsh(z, x *verifMNat, shift uint, c int) {
@@ -223,10 +296,16 @@ func verifMNatLsh(z, x *verifMNat, shift uint, c int) {
 		c = x.ann + int(shift)
 	}
 	verifMResized(z, c)
-	xv := verifMResized(x, c)
+	xv, xl, xu := verifMView(x, c)
 	var r uint64
+	lb, ub := uint64(0), verifMaxU
 	if c > 0 && shift < 64 {
 		r = xv << shift
+		if (xu<<shift)>>shift == xu {
+			lb, ub = xl<<shift, xu<<shift
+		}
+	} else {
+		ub = 0
 	}
 	if c > 64 { // bits that move into the second limb are outside the model
 		if shift < 64 {
@@ -235,19 +314,22 @@ func verifMNatLsh(z, x *verifMNat, shift uint, c int) {
 			verifMEscapeIf(xv != 0)
 		}
 	}
-	z.v, z.ann, z.red = r, c, nil // no masking to c inside the top limb (as saferith)
+	z.v, z.ann, z.red, z.lb, z.ub = r, c, nil, lb, ub // no masking to c inside the top limb (as saferith)
 }
 
 func verifMNatDiv(z, x *verifMNat, m *verifMMod, c int) {
 	if c < 0 {
 		c = x.ann - m.bits + 2
 	}
-	var q uint64
+	var q, lb, ub uint64
 	if x.ann > 0 {
-		verifMEscapeIf((x.v|m.v)>>32 != 0) // the model divides 32-bit operands
+		if (x.ub|m.v)>>32 != 0 {
+			verifMEscapeIf((x.v|m.v)>>32 != 0) // the model divides 32-bit operands
+		}
 		q = uint64(uint32(x.v) / uint32(m.v))
+		lb, ub = x.lb/m.v, x.ub/m.v
 	}
-	z.v, z.ann, z.red = verifMTrunc(q, c), c, nil
+	verifMSetTrunc(z, q, lb, ub, c)
 }
 
 func verifMNatMod(z, x *verifMNat, m *verifMMod) {
@@ -255,26 +337,16 @@ func verifMNatMod(z, x *verifMNat, m *verifMMod) {
 		verifMNatSetNat(z, x)
 		return
 	}
-	var r uint64
-	if x.ann > 0 {
-		verifMEscapeIf((x.v|m.v)>>32 != 0)
-		r = uint64(uint32(x.v) % uint32(m.v))
-	}
-	z.v, z.ann, z.red = r, m.bits, m
+	// (x marked reduced by another Modulus object of the same value: saferith reduces again, which
+	// changes nothing but the announced length; verifMRed skips the division)
+	v, lb, ub := verifMRedB(x, m)
+	z.v, z.ann, z.red, z.lb, z.ub = v, m.bits, m, lb, ub
 }
 
 func verifMNatModMul(z, x, y *verifMNat, m *verifMMod) {
-	verifMEscapeIf(m.v>>16 != 0) // residues are multiplied in 32 bits
-	var a, b uint32
-	if x.ann > 0 {
-		verifMEscapeIf(x.v>>32 != 0)
-		a = uint32(x.v) % uint32(m.v)
-	}
-	if y.ann > 0 {
-		verifMEscapeIf(y.v>>32 != 0)
-		b = uint32(y.v) % uint32(m.v)
-	}
-	z.v, z.ann, z.red = uint64((a*b)%uint32(m.v)), m.bits, m
+	// widened with respect to harness/e1/numctdiv: see verifMMulMod (zz_verif_sfmodel_ext.go)
+	a, b := verifMRed(x, m), verifMRed(y, m)
+	z.v, z.ann, z.red, z.lb, z.ub = verifMMulMod(a, b, m.v), m.bits, m, 0, m.v-1
 }
 
 func verifMModFromNat(m *verifMMod, n *verifMNat) {
@@ -296,7 +368,7 @@ func verifMIntAdd(z, x, y *verifMInt, c int) {
 	verifMEscapeIf(y.abs.v>>62 != 0)
 	if c+1 <= 0 { // no limbs at all
 		z.neg = 0
-		z.abs.v, z.abs.ann, z.abs.red = verifMTrunc(0, c), c, nil
+		verifMSetTrunc(&z.abs, 0, 0, 0, c)
 		return
 	}
 	// saferith quirk (int.go, Add): the two's-complement scratch buffers are carved out of the
@@ -312,7 +384,7 @@ func verifMIntAdd(z, x, y *verifMInt, c int) {
 	ys := int64(verifIteU64(y.neg == 1, -y.abs.v, y.abs.v))
 	s := xs + ys
 	z.neg = verifMChoice(s < 0)
-	z.abs.v, z.abs.ann, z.abs.red = verifMTrunc(verifIteU64(s < 0, uint64(-s), uint64(s)), c), c, nil
+	verifMSetTrunc(&z.abs, verifIteU64(s < 0, uint64(-s), uint64(s)), 0, verifMaxU, c)
 }
 
 func verifMIntMul(z, x, y *verifMInt, c int) {
@@ -456,7 +528,7 @@ func verifCModNat(m *saferith.Modulus) *saferith.Nat {
 	out := new(saferith.Nat)
 	r := verifModRec(m)
 	o := verifNatRec(out)
-	o.v, o.ann, o.red = r.v, r.bits, r.natRed
+	o.v, o.ann, o.red, o.lb, o.ub = r.v, r.bits, r.natRed, r.v, r.v
 	return out
 }
 
